@@ -49,13 +49,12 @@ reported as `lowering:*` (specific sites — this is where a wrong lowering show
 go/types rejects too, and near-misses of XGo-only programs, are two family sites listed as known findings; the fixed
 list of repository snippets that compile but are not valid Go is listed by Go message class (`corpus:*`). The Go
 message classes observed are counted in the evidence (`go-rejection-class:*`).
-*Open gap (wave 10, `seeded/C06d`, not detected):* a duplicate unnamed composite type in two type-switch clauses
-(`case []int:` … `case string, []int:`) accepted by the compiler. Two reasons: generated type switches only list
-named/basic types, and any near-miss of a Go program that Go also rejects lands in the single known site
-`accepts-invalid-program:near-miss-of-a-go-program-that-go-rejects-too`, which would absorb it. The sound strengthening is
-to split that site by Go's rejection class (the classes are already counted as `invalid-go-input-rejected-by-go-as:*`
-coverage) and list only the classes seen on the unchanged tree; it needs a multi-seed thorough enumeration first so that
-the split does not alarm on the unchanged tree, and was not done.""",
+After a wave-10 change was missed (`seeded/C06d`: duplicate type-switch cases looked up by pointer identity instead of
+types.Identical), a quarter of the Go-compatible programs carry a type switch over unnamed composite types, half of them
+listing one composite type in two clauses; the compiler has to reject those, and an accepted one is a specific site
+(`lowering:typecheck:duplicate case…`) because the generated (un-mutated) kind does not fall into the broad known
+near-miss site. Remaining limit: a *near-miss* that Go also rejects for a new reason still folds into that one known site;
+splitting it by Go's rejection class needs a multi-seed enumeration first and was not done.""",
 "C07": """Q ≈3 500 packages / T ≈122 000 through cl.NewPackage+WriteTo and x/build; one defect fixed (bodiless function
 declaration made WriteTo panic). A third of the cases compile with an x/typesutil recorder attached (Config.Recorder
 changes which code runs, e.g. goxRecorder.Complete in a defer) and a case kind draws unusual declaration shapes
